@@ -91,6 +91,10 @@ def run(workdir, root, cfg_text, root_text=None, workers=16, simulate=None, dept
     ok_exits = (0,)
     if r.exit not in ok_exits and r.violation is None:
         raise MachineryError("TLC failed (exit %s) on %s:\n%s" % (r.exit, root, _tail(r.stdout)))
+    if r.violation is None and re.search(r"^Error: ", r.stdout, re.M):
+        # e.g. a Java StackOverflowError while computing initial states: TLC may still exit 0 with a
+        # truncated state space -- never accept that as a completed run
+        raise MachineryError("TLC reported an error without a property violation on %s:\n%s" % (root, _tail(r.stdout)))
     if r.violation is not None and not expect_violation:
         pass  # the caller decides; a violated design property is reported by the check
     return r
@@ -142,7 +146,11 @@ def _parse(r):
             r.tuples.append(_parse_tuple(s))
     # with several workers the print order varies from run to run: make it canonical so that seeded
     # sampling of the records is reproducible
-    r.records.sort(key=lambda x: json.dumps(x, sort_keys=True))
+    # (a constraint that prints may be evaluated more than once for the same state: drop exact duplicates)
+    uniq = {}
+    for x in r.records:
+        uniq.setdefault(json.dumps(x, sort_keys=True), x)
+    r.records = [uniq[k] for k in sorted(uniq)]
 
 
 def _parse_tuple(s):
